@@ -27,6 +27,9 @@ import Flowjaxv.Driver.LossesGen
 import Flowjaxv.Driver.DistPublicGen
 import Flowjaxv.Driver.CtorsGen
 import Flowjaxv.Driver.FamiliesGen
+import Flowjaxv.Driver.TriangularGen
+import Flowjaxv.Driver.WrapperGen
+import Flowjaxv.Driver.PermGen
 /-!
 Model driver: `lake env lean --run Driver.lean < ops.txt`.  One op per line in, one line out
 (`ERR <msg>` when the model rejects the op).
@@ -140,6 +143,11 @@ def dispatch (line : String) : String :=
       | "addcond" => addcond args
       | "planar" => planar args
       | "triaff" => triaff args
+      | "gtriaff" => gtriaff args
+      | "gwrapper" => gwrapper args
+      | "gpermute" => gpermute args
+      | "gpermctor" => gpermctor args
+      | "ginitsub" => ginitsub args
       | "bnafld" => bnafld args
       | "gbnafld" => gbnafld args
       | "gbnafild" => gbnafild args
